@@ -48,7 +48,7 @@ ASSIGN = {
     "signed": S.val_signed(2),
     "tiny": S.scaled(S.val_pow2(0), 2.0 ** -70),
     "huge": S.scaled(S.val_base(4, 1), 2.0 ** 80),
-    "u8": S.val_base(3, 80),  # stored as uint8; cumulative sums exceed 255
+    "u8": S.val_base(2, 60),  # stored as uint8 (every entry <= 153 for 5 letters); cumulative sums exceed 255
     "int": S.val_base(4, 1),  # stored as int64
 }
 PATTERNS_Q = ("all2", "2323", "1213")
